@@ -42,12 +42,15 @@ def scenario(rng, i):
                 e['rel']['f'] = rng.choice([crit, math.nextafter(crit, 2), math.nextafter(crit, 0)])
     if m != 7 or rng.random() < 0.5:
         GEN.add_const_rules(rng, spec, n_rules=rng.randint(1, 5))
+    if m in (2, 7) and rng.random() < 0.5:
+        from . import c15 as C15          # position-keyed rule: the duty cycle changes with the state, also across zero
+        spec['rules'].append(C15.make_rule(rng, spec, 'reach', sim=True))
     spec['probe'] = True
     return spec
 
 
 def pattern(spec):
-    return ''.join('0' if r['value'] == 0 else ('+' if r['value'] > 0 else '-') for r in spec['rules']) + ('L+' if spec['load']['A'] >= 0 else 'L-')
+    return ''.join(('0' if r['value'] == 0 else ('+' if r['value'] > 0 else '-')) if r['type'] == 'const' else 'R' for r in spec['rules']) + ('L+' if spec['load']['A'] >= 0 else 'L-')
 
 
 def nontrivial(spec, ana):
